@@ -14,7 +14,7 @@ ROLES = ("FORMED", "BROKEN", "FLEETING")
 
 
 def make_ids(rng: random.Random, n: int, kind: str | None = None) -> list[int]:
-    kind = kind or rng.choice(["range", "range", "shuffled", "sparse", "negative", "large"])
+    kind = kind or rng.choice(["range", "range", "shuffled", "sparse", "negative", "large"] * 3 + ["huge"])
     if kind == "range":
         return list(range(n))
     if kind == "shuffled":
@@ -25,6 +25,10 @@ def make_ids(rng: random.Random, n: int, kind: str | None = None) -> list[int]:
         return rng.sample(range(0, 10 * n + 20), n)
     if kind == "negative":
         return rng.sample(range(-5 * n - 10, 5 * n + 10), n)
+    if kind == "huge":  # beyond int32, up to just below int64 (ids that end up in fixed-width integer arrays)
+        base = rng.choice([2**31 - n // 2, 2**32 - n // 2, 2**53, 2**62])
+        sign = rng.choice([1, 1, -1])
+        return [sign * x for x in rng.sample(range(base, base + 50 * n + 100), n)]
     return rng.sample(range(10**6, 10**6 + 50 * n + 100), n)
 
 
